@@ -45,7 +45,7 @@ Verdict(ev) ==
          LET src == HB(ev["in"])  n == Len(src) IN
          IF n < 32 \/ n > 64 THEN << ev.panic, {"uni_panic"} >>
          ELSE LET u == OS2IP(src) %% P  want == SetUniformBytesD(src) IN
-         << ~ev.panic /\ ev.out = EncUncompressedH(want) /\ ValidPoint(want) /\ ev.again = ev.out,
+         << ~ev.panic /\ ev.out = EncUncompressedH(want) /\ ValidPoint(want) /\ ev.again = ev.out /\ (Has(ev, "zrecv") => ev.zrecv = ev.out),
             (CASE n = 32 -> {"uni_len_32"} [] n = 48 -> {"uni_len_48"} [] n = 64 -> {"uni_len_64"} [] OTHER -> {"uni_len_other"})
             \cup (IF P \preceq OS2IP(src) THEN {"uni_ge_p"} ELSE {}) \cup UClasses(u)
             \cup (IF IsInf(want) THEN {"result_identity"} ELSE {}) >>
